@@ -355,3 +355,37 @@ Lemma inplace_filter_refuted : exists bs,
 Proof.
   exists [rb_sh; rb_reg]. vm_compute. split; [reflexivity|]. split; [discriminate|reflexivity].
 Qed.
+
+(* ---- histories: the client-visible step does not depend on the shadow calls in flight ---- *)
+Lemma serve_independent {R} (F : list backend -> ctx -> request -> R) bs inflight tk now c r :
+  bs <> [] ->
+  fst (serve F bs inflight tk now c r) = Some (F (filter (fun b => negb (shadowb b)) bs) c r).
+Proof.
+  intros Hne. unfold serve. pose proof (endpoint_invariant F bs tk now c r Hne) as H.
+  destruct (endpoint_call F bs tk now c r) as [[x [s|]]|]; simpl in *; try discriminate;
+    inversion H; reflexivity.
+Qed.
+
+Definition calls_of {R} (F : list backend -> ctx -> request -> R) (reg : list backend) (es : list hevent) : list (option R) :=
+  flat_map (fun e => match e with HCall _ _ c r => [Some (F reg c r)] | HShadowEnds _ => [] end) es.
+
+(* for every history (any number of calls, shadow calls ending at any point or never) and
+   any shadow calls pending at its start *)
+Lemma history_independent {R} (F : list backend -> ctx -> request -> R) bs es :
+  bs <> [] -> forall inflight,
+  history F bs inflight es = calls_of F (filter (fun b => negb (shadowb b)) bs) es.
+Proof.
+  intros Hne. induction es as [|[tk now c r|k] rest IH]; intros inflight; simpl; [reflexivity| |apply IH].
+  pose proof (serve_independent F bs inflight tk now c r Hne) as H.
+  destruct (serve F bs inflight tk now c r) as [x inflight']. simpl in H. subst x.
+  rewrite IH. reflexivity.
+Qed.
+
+Lemma bounded_blocks {R} cap (F : list backend -> ctx -> request -> R) bs reg sh t inflight tk now c r :
+  shadow_new bs = BShadowed reg sh t -> cap <= List.length inflight ->
+  fst (serve_bounded cap F bs inflight tk now c r) = None.
+Proof.
+  intros Hb Hc. unfold serve_bounded. rewrite Hb.
+  destruct (cap <=? List.length inflight)%nat eqn:E; [reflexivity|].
+  apply Nat.leb_gt in E. lia.
+Qed.
